@@ -33,7 +33,7 @@ type c13L struct {
 }
 
 func init() {
-	steps := []string{"sessionless", "discovery", "open", "rakp1", "rakp3", "insession", "close", "sdr-info", "sdr-reserve", "sdr-get1", "sdr-get2", "sdr-get3", "sdr-get4", "sdr-final", "wrongpw", "close2", "after-expired", "suites-idx1", "suites-idx2", "sensor-read", "dcmi-enum", "suites-again", "after-long-ctx"}
+	steps := []string{"sessionless", "discovery", "open", "rakp1", "rakp3", "insession", "close", "sdr-info", "sdr-reserve", "sdr-get1", "sdr-get2", "sdr-get3", "sdr-get4", "sdr-final", "wrongpw", "close2", "after-expired", "suites-idx1", "suites-idx2", "sensor-read", "dcmi-enum", "suites-again", "after-long-ctx", "after-cancelled"}
 	faults := []string{"blackhole", "late", "garbage", "tempcode", "trunc", "ffrun", "drop-once", "repo-modified", "runts", "close-inflight", "duplicate"}
 	register(&Check{
 		ID:      "C13",
@@ -55,7 +55,7 @@ func init() {
 							continue // the repository can only change under a retrieval
 						}
 						if tier == "quick" && (fi+ri+len(st))%3 != int(seed%3+3)%3 && !(f == "repo-modified" && ri != 2 && st == "sdr-get3") && !(st == "wrongpw" && f == "blackhole" && ri < 2) && !(f == "drop-once" && ri == 2 && (st == "sdr-get2" || st == "sdr-get4" || st == "discovery")) &&
-							!((st == "suites-idx1" || st == "suites-idx2" || st == "suites-again" || st == "after-long-ctx") && (f == "blackhole" && ri != 1 || f == "tempcode" && ri == 2 || f == "garbage" && ri == 2)) {
+							!((st == "suites-idx1" || st == "suites-idx2" || st == "suites-again" || st == "after-long-ctx" || st == "after-cancelled") && (f == "blackhole" && ri != 1 || f == "tempcode" && ri == 2 || f == "garbage" && ri == 2)) {
 							continue
 						}
 						cs = append(cs, ev.MkCase("udp", c13P{Step: st, Fault: f, Timeout: rt[0], Deadline: rt[1], Seed: seed}))
@@ -158,7 +158,7 @@ func c13Match(step string, b *refbmc.BMC, getCount *int) bool {
 		return false
 	}
 	switch step {
-	case "sessionless", "after-expired":
+	case "sessionless", "after-expired", "after-cancelled":
 		return e.Kind == "sessionless-ipmi" && e.Cmd == 0x37
 	case "discovery":
 		return e.Kind == "sessionless-ipmi" && e.Cmd == 0x54
@@ -397,6 +397,20 @@ func c13UDP(run *ev.Run, p c13P, cs ev.Case) (string, func()) {
 		}
 		getCount = 1000
 	}
+	if p.Step == "after-cancelled" {
+		// an earlier call on this connection met the same fault and was given up by its caller (an
+		// explicit cancel, well before any deadline); the measured call is the next one
+		c0, cancel0 := context.WithCancel(context.Background())
+		time.AfterFunc(40*time.Millisecond, cancel0)
+		gave := make(chan struct{})
+		go func() { safe(func() { st.GetSystemGUID(c0) }); close(gave) }()
+		select {
+		case <-gave:
+		case <-time.After(time.Duration(p.Timeout)*time.Millisecond + 3*time.Second):
+			run.Violation("C13:cancelled-call-never-returned", fmt.Sprintf("a Get System GUID cancelled after 40 ms (per-attempt timeout %d ms, fault %s) had not returned %d ms later", p.Timeout, p.Fault, p.Timeout+3000), cs, nil)
+			return "violated", nil
+		}
+	}
 	if p.Step == "after-long-ctx" {
 		c0, cancel0 := context.WithTimeout(context.Background(), 90*time.Second)
 		defer cancel0() // stays alive for the whole case
@@ -435,7 +449,7 @@ func c13UDP(run *ev.Run, p c13P, cs ev.Case) (string, func()) {
 		defer close(done)
 		pv, stk = safe(func() {
 			switch p.Step {
-			case "sessionless", "after-expired", "dead-port-sessionless", "after-long-ctx":
+			case "sessionless", "after-expired", "dead-port-sessionless", "after-long-ctx", "after-cancelled":
 				_, callErr = st.GetSystemGUID(ctx)
 			case "discovery", "open", "rakp1", "rakp3", "wrongpw", "dead-port-open":
 				_, callErr = st.NewV2Session(ctx, opts)
@@ -641,7 +655,7 @@ func c13Mem(run *ev.Run, l c13L, cs ev.Case) {
 	var callErr error
 	pv, stk := safe(func() {
 		switch l.Step {
-		case "sessionless", "after-expired", "after-long-ctx":
+		case "sessionless", "after-expired", "after-long-ctx", "after-cancelled":
 			_, callErr = st.GetSystemGUID(ctx)
 		case "discovery", "open", "rakp1", "rakp3", "wrongpw":
 			_, callErr = st.NewV2Session(ctx, opts)
